@@ -20,6 +20,7 @@ import (
 // cache snapshot (names -> stamps), interest sets, acknowledged versions / nonces, name table.
 
 type histProfile struct {
+	pEvict int // an eviction by the cleaner (per cent of the steps)
 	steps        int
 	pFault       int // % of steps that are stream faults
 	pBad         int // % of pushes with an undecodable slot
@@ -210,7 +211,26 @@ func genHistory(c *ctx, prof histProfile, ndsRequired bool) {
 					w.feedErr(errors.New("verif: stream reset"))
 				})
 			}
-		case x < prof.pFault+prof.pGet:
+		case !closed && x < prof.pFault+prof.pEvict:
+			// the cleaner evicts (and unsubscribes) a cached name: the body of one firing iteration, through the verif hook;
+			// later pushes may still carry the name (they were on the wire), later lookups subscribe it again
+			rt := []string{"lds", "rds", "cds", "eds"}[r.intn(4)]
+			cache, _ := w.m.VerifSnapshot()
+			var cands []string
+			for n := range cache[rtOf(rt)] {
+				if n != xdsresource.ReservedLdsResourceName {
+					cands = append(cands, n)
+				}
+			}
+			if len(cands) == 0 {
+				continue
+			}
+			sort.Strings(cands)
+			n := cands[r.intn(len(cands))]
+			h.now += 100 // the age test is about wall-clock time; the hook runs the body of an iteration whose test fired
+			c.count("evict", 1)
+			h.step(obj{"o": "evict", "rt": rt, "n": n}, func() { w.m.VerifEvict(rtOf(rt), n) })
+		case x < prof.pFault+prof.pEvict+prof.pGet:
 			rt := []string{"lds", "rds", "cds", "eds"}[r.intn(4)]
 			u := histUniverse[rt]
 			n := u[r.intn(len(u))]
@@ -434,7 +454,9 @@ func stalledBurst(c *ctx, n int) {
 // stalledAck: the connection stalls (Send blocks) while the acknowledgement of a response waits in the request queue
 // and more lookups of ANOTHER type miss than the queue holds. Newer requests supersede older ones only within their own
 // type: when the connection resumes the acknowledgement must still reach the control plane, exactly once (C02).
-func stalledAck(c *ctx, n int, bad bool) {
+func stalledAck(c *ctx, n int, bad bool) { stalledAck2(c, n, bad, false) }
+
+func stalledAck2(c *ctx, n int, bad, second bool) {
 	w, err := newWorld(worldOpts{ndsNotRequired: true, fetchTimeout: time.Millisecond})
 	if err != nil {
 		fmt.Println("hist: world:", err)
@@ -461,7 +483,13 @@ func stalledAck(c *ctx, n int, bad bool) {
 		slots = append(slots, [3]string{"bad", "", ""})
 		anys = append(anys, &anypb.Any{TypeUrl: urlOf("eds"), Value: []byte{0xff, 0xff, 0xff}})
 	}
-	h.step(obj{"o": "stalled-ack", "rt": "eds", "v": "v1", "nonce": "n1", "slots": slotsJSON(slots), "first": "s0", "brt": "cds", "names": names}, func() {
+	stepObj := obj{"o": "stalled-ack", "rt": "eds", "v": "v1", "nonce": "n1", "slots": slotsJSON(slots), "first": "s0", "brt": "cds", "names": names}
+	if second {
+		// a second response of the same type follows while the acknowledgement of the first still waits in the queue: both
+		// acknowledgements reach the control plane, each with its own nonce, version and error detail
+		stepObj["second"] = obj{"v": "v2", "nonce": "n2", "slots": slotsJSON([][3]string{{"good", "e1", "e1#2"}})}
+	}
+	h.step(stepObj, func() {
 		_ = w.get(rtOf("cds"), "s0") // its request is taken by the sender, which blocks in Send
 		w.waitFor(func() bool { return w.m.VerifQueueLen() == 0 }, 5*time.Second)
 		w.feed(mkResp(urlOf("eds"), "v1", "n1", anys))
@@ -473,6 +501,16 @@ func stalledAck(c *ctx, n int, bad bool) {
 			w.ads.mu.Unlock()
 			return back && w.m.VerifQueueLen() == 1
 		}, 5*time.Second)
+		if second {
+			w.feed(mkResp(urlOf("eds"), "v2", "n2", []*anypb.Any{anyStamped("eds", "e1", "e1#2")}))
+			w.waitFor(func() bool {
+				w.ads.mu.Lock()
+				s := w.ads.streams[len(w.ads.streams)-1]
+				back := s.waiting && len(s.inbox) == 0
+				w.ads.mu.Unlock()
+				return back && w.m.VerifQueueLen() == 2
+			}, 5*time.Second)
+		}
 		done := make(chan struct{})
 		var returned int64
 		go func() {
@@ -704,16 +742,18 @@ func runHistories(c *ctx, prof histProfile, n int) {
 
 func init() {
 	props["C01"] = func(c *ctx) {
-		runHistories(c, histProfile{steps: 40, pFault: 3, pBad: 10, pUnsolicited: 25, pGet: 40, sendFail: false}, 60*c.budget)
+		runHistories(c, histProfile{steps: 40, pFault: 3, pEvict: 6, pBad: 10, pUnsolicited: 25, pGet: 40, sendFail: false}, 60*c.budget)
 	}
 	props["C02"] = func(c *ctx) {
 		flowCase(c, "ack", 1040)
 		stalledAck(c, 1040, c.rng.chance(50))
+		stalledAck2(c, 12, true, true)
+		stalledAck2(c, 12, false, true)
 		if c.thorough() {
 			stalledAck(c, 1040, false)
 			stalledAck(c, 1040, true)
 		}
-		runHistories(c, histProfile{steps: 40, pFault: 2, pBad: 40, pUnsolicited: 15, pGet: 30}, 60*c.budget)
+		runHistories(c, histProfile{steps: 40, pFault: 2, pEvict: 5, pBad: 40, pUnsolicited: 15, pGet: 30}, 60*c.budget)
 	}
 	props["C03"] = func(c *ctx) {
 		stalledBurst(c, 1040)
@@ -726,7 +766,7 @@ func init() {
 		for i := 0; i < 10*c.budget && !c.expired(); i++ {
 			stalledReconnect(c, 1+i%2)
 		}
-		runHistories(c, histProfile{steps: 50, pFault: 6, pBad: 10, pUnsolicited: 10, pGet: 60}, 50*c.budget)
+		runHistories(c, histProfile{steps: 50, pFault: 6, pEvict: 8, pBad: 10, pUnsolicited: 10, pGet: 55}, 50*c.budget)
 	}
 	props["C04"] = func(c *ctx) {
 		stopFlood(c, 1030)
@@ -742,7 +782,7 @@ func init() {
 		outage(c, 1, 0)
 		outage(c, 3, 0)
 		outage(c, 1, 1040)
-		runHistories(c, histProfile{steps: 30, pFault: 22, pBad: 15, pUnsolicited: 10, pGet: 35, authStop: true, createFail: c.thorough(), sendFail: true}, 50*c.budget)
+		runHistories(c, histProfile{steps: 30, pFault: 22, pEvict: 4, pBad: 15, pUnsolicited: 10, pGet: 35, authStop: true, createFail: c.thorough(), sendFail: true}, 50*c.budget)
 	}
 }
 
